@@ -584,9 +584,15 @@ def rule_entry_validation(col, facts):
     # WriteFloat::write_float: both asserts dominate every store and back-end call
     wf = facts.fn("lexical_write_float::write::WriteFloat::write_float")
     m = 0
+    BACKENDS = ("write_float_decimal", "::write_float", "write_nan", "write_inf")
+    def _holds_backends(cn):
+        # a back-end, or a helper of this crate that dispatches to the back-ends (`write_finite`, `write_non_finite`)
+        if cn.endswith(BACKENDS) and not cn.endswith("WriteFloat::write_float"):
+            return True
+        return any(h.crate == wf.crate and h.short != wf.short and any(callee_name(c2).endswith(BACKENDS[:2]) or "special" in callee_name(c2) or "nan_string" in callee_name(c2) for _b2, c2, _a2, _d2, _t2 in h.calls()) for h in facts.by_short.get(cn, []))
     for bb, c, a, _d, _t in wf.calls():
         cn = callee_name(c)
-        if cn.endswith(("write_float_decimal", "::write_float", "write_nan", "write_inf")) and not cn.endswith("WriteFloat::write_float"):
+        if _holds_backends(cn):
             conds = path_conditions(wf, bb)
             m += 1
             col.check(R, "write_float->%s#is_valid" % cn.replace("lexical_write_float::", ""),
